@@ -29,21 +29,19 @@
                   - the secondary-error filter                                (the C04_filter_... theorems), NewTypeInfo total
                   - accepted -> 5.3.1, 5.3.3, every field defined, hence 5.4 without side condition
                                                                               (C04_accepted_fields_hold, C04_accepted_arguments_hold)
+                  - a secondary error is never returned: when no rule group reports a primary error, no
+                    rule group reports anything (both pipelines)                 (C04_secondary_never_alone, C04_no_primary_then_nothing)
+                  - accepted -> 5.5.2.2 and 5.8.1 - 5.8.5 in the Spec's own formulation; the Spec's
+                    fuel-bounded reachability is the transitive closure          (C04_accepted_cycles_variables, C04_spec_reachable_from)
     NOT proved: the converse for 5.3.1 / 5.3.3 (valid -> the field visitor is silent), the equivalences
-    for 5.2.3.1 (subscription root), 5.3.2 (FieldsInSetCanMerge / SameResponseShape), 5.5.2 (spreads against the Spec's formulation), 5.8
-    (variables against the Spec's formulation), hence validate_verdict itself; that no secondary error
-    is ever emitted without a primary one (secondary_never_alone:
-      validate_model repaired pi S F D = Done errs -> In e errs -> e_sec e = true -> False;
-    proved for the part of the pipeline the secondary errors hang on — without a primary error
-    every field occurrence is defined on a composite parent, every fragment is declared once on a
-    composite type, and the field visitor, the fragment-declaration rule, the directive rule and the
-    whole spread rule incl. the cycle search are silent: C04_secondary_never_alone_partial; open:
-    arguments, values, variables, operations, the overlapping-fields pass); validate_error_located.  These are
-    covered on every run by the correspondence check and the Spec oracle only. *)
+    for 5.2.3.1 (subscription root), 5.3.2 (FieldsInSetCanMerge / SameResponseShape), 5.5.2.3 (spread
+    possible), the converse for 5.5.2.1 / 5.5.2.2 / 5.8 (valid -> the rule is silent), hence
+    validate_verdict itself; validate_error_located.  These are covered on every run by the
+    correspondence check and the Spec oracle only. *)
 From Coq Require Import List NArith.
 From ApiFu Require Import Base.Sexp Vld.Ast Vld.Inspect Vld.InspectProofs Vld.TypeInfoModel Vld.TypeInfoPure Vld.ValidatorModel Vld.ValidSpec
      Vld.Hyps Vld.ProofsCommon Vld.ProofsDirectives Vld.ProofsArguments Vld.ProofsFragDecl Vld.ProofsValues
-     Vld.ProofsCycles Vld.ProofsVarsOrder Vld.ProofsOrder Vld.ProofsOperations Vld.ProofsTotal Vld.Enumerate Vld.ProofsFields Vld.ProofsMemo Vld.ValidatorProofs Vld.ProofsSpreads Vld.ProofsSecondary Vld.ProofsSpecReach Vld.ProofsVarsSpec Vld.ProofsDepth Vld.ProofsDepthRule Vld.MemoTransfer Vld.ProofsMemoConverse Vld.MemoEquiv Vld.ProofsTypeInfoValues Vld.Witness.
+     Vld.ProofsCycles Vld.ProofsVarsOrder Vld.ProofsOrder Vld.ProofsOperations Vld.ProofsTotal Vld.Enumerate Vld.ProofsFields Vld.ProofsMemo Vld.ValidatorProofs Vld.ProofsSpreads Vld.ProofsSecondary Vld.ProofsSecondaryAll Vld.ProofsSpecReach Vld.ProofsVarsSpec Vld.ProofsDepth Vld.ProofsDepthRule Vld.MemoTransfer Vld.ProofsMemoConverse Vld.MemoEquiv Vld.ProofsTypeInfoValues Vld.Witness.
 Import ListNotations.
 
 (** ** determinism: acceptance is a function of schema, features and document alone *)
@@ -216,16 +214,32 @@ Theorem C04_filter_secondary_only_without_primary : forall errs e,
   In e (filter_primary errs) -> e_sec e = true -> forall e', In e' errs -> e_sec e' = true.
 Proof. exact filter_primary_secondary. Qed.
 
-(** ** secondary errors (partial)
-    [all_rules] is the pipeline before the primary / secondary filter, run on the annotated document
-    NewTypeInfo produces.  If its result has no primary error, then every field occurrence of every
-    definition sits on a composite, defined parent type ([good]) and four of the eight rule groups
-    (first field visitor, fragment declarations, directives, fragment spreads with the cycle search)
-    reported nothing at all — so none of the secondary errors of these groups (field of unknown
-    parent, unknown spread target inside an undefined scope, ...) survives the filter alone.
-    That every operation's root type exists is part of the conclusion (its failure is the primary
-    error EOpUnsupported of validateOperations). *)
-Theorem C04_secondary_never_alone_partial : forall pi S F D errs,
+(** ** secondary_never_alone
+    A secondary error ("no field info", "no location type", "undefined fragment" met again by
+    addFieldSelections, ...) repeats what another rule reports as a primary error; ValidateDocument
+    drops the secondary ones when a primary one exists.  It never returns a secondary error: when no
+    rule group reports a primary error, no rule group reports anything.  Hypotheses on the schema,
+    both decidable and evaluated on every generated schema: [schema_ok], and [schema_args_ok]: the
+    argument definitions of a field, of an introspection meta field or of a directive have distinct
+    names (they are the keys of a Go map) and input types (schema.New rejects anything else).
+    [validate_model_memo] is the pipeline as it is (checked-pairs memo), [validate_model] the same
+    without the memo; [all_rules] / [all_rules_m] are they before the filter, on the document
+    NewTypeInfo annotates. *)
+Theorem C04_secondary_never_alone : forall pi, order_ok pi -> forall S F D errs e,
+  schema_ok S = true -> schema_args_ok S = true ->
+  validate_model_memo repaired pi S F D = Done errs -> In e errs -> e_sec e = false.
+Proof. exact secondary_never_alone_memo. Qed.
+Theorem C04_secondary_never_alone_plain : forall pi, order_ok pi -> forall S F D errs e,
+  schema_ok S = true -> schema_args_ok S = true ->
+  validate_model repaired pi S F D = Done errs -> In e errs -> e_sec e = false.
+Proof. exact secondary_never_alone. Qed.
+Theorem C04_no_primary_then_nothing : forall pi, order_ok pi -> forall S F D errs,
+  schema_ok S = true -> schema_args_ok S = true ->
+  all_rules_m repaired pi S F (pti_doc (q_unwrap_obj repaired) S F D) = Done errs -> primary errs = [] -> errs = [].
+Proof. exact no_primary_then_nothing_memo. Qed.
+(** on the way: without a primary error every operation has a root type, every field occurrence
+    sits on a composite, defined parent type ([good]), and so on ([schema_args_ok] not needed) *)
+Theorem C04_no_primary_then_scopes_good : forall pi S F D errs,
   order_ok pi -> schema_ok S = true ->
   all_rules repaired pi S F (pti_doc (q_unwrap_obj repaired) S F D) = Done errs -> primary errs = [] ->
   valid_root S D = true /\
@@ -479,7 +493,10 @@ Print Assumptions C04_accepted_iff_rules_silent.
 Print Assumptions C04_all_rules_silent.
 Print Assumptions C04_filter_nil.
 Print Assumptions C04_filter_secondary_only_without_primary.
-Print Assumptions C04_secondary_never_alone_partial.
+Print Assumptions C04_secondary_never_alone.
+Print Assumptions C04_secondary_never_alone_plain.
+Print Assumptions C04_no_primary_then_nothing.
+Print Assumptions C04_no_primary_then_scopes_good.
 Print Assumptions C04_accepted_doc_ok_conjuncts.
 Print Assumptions C04_spec_reachable_from.
 Print Assumptions C04_spec_op_fragments.
